@@ -668,7 +668,7 @@ class OpsMixin(object):
             else:
                 di = i - (len(params) - ndef)
                 if di < 0:
-                    self.err(node, "missing argument %s calling %s" % (p, fi.qualname))
+                    raise RaiseSignal(ExcV(ExtV("builtins.TypeError"), [Const("%s() missing required argument %r" % (fi.qualname, p))]), node)
                 denv = Env(parent=fv.closure, module=fi.module, label=fi.fq)
                 env.vars[p] = self.eval(defaults[di], denv)
         extra = pos[len(params):]
@@ -678,7 +678,7 @@ class OpsMixin(object):
             else:
                 env.vars[a.vararg.arg] = ListV(extra, "tuple")
         elif extra:
-            self.err(node, "too many arguments calling %s" % fi.qualname)
+            raise RaiseSignal(ExcV(ExtV("builtins.TypeError"), [Const("%s() takes fewer positional arguments" % fi.qualname)]), node)
         for ko, kd in zip(a.kwonlyargs, a.kw_defaults):
             if ko.arg in kwargs:
                 env.vars[ko.arg] = kwargs.pop(ko.arg)
@@ -692,7 +692,7 @@ class OpsMixin(object):
                 d.items[Const(k).key()] = (Const(k), v)
             env.vars[a.kwarg.arg] = d
         elif kwargs:
-            self.err(node, "unexpected keyword arguments %s calling %s" % (sorted(kwargs), fi.qualname))
+            raise RaiseSignal(ExcV(ExtV("builtins.TypeError"), [Const("%s() got unexpected keyword arguments %s" % (fi.qualname, sorted(kwargs)))]), node)
         return env
 
     def call_function(self, fv, args, kwargs, node):
